@@ -148,9 +148,9 @@ def sink_loops(ctx):
     return out
 
 
-def _owner(key):
+def _owner(ctx, key):
     """enclosing named function of a (possibly spawned) closure body"""
-    return key.split("::{closure")[0]
+    return ctx.P.owner(key)
 
 
 def r4_send_side(ctx):
@@ -173,7 +173,7 @@ def r4_send_side(ctx):
     ctx.floor("R08.4", "forwarding loops (source -> stream)", len(loops), 5)
     for key, body, s, loop, src in loops:
         cfg = ctx.cfg(body)
-        owner = _owner(key)
+        owner = _owner(ctx, key)
         exits = {b for x in loop for b in cfg.succ(x) if b not in loop}
         # every exit path must call into a body that reaches an emitter
         via = [c.bb for c in body.calls() if ctx.cg.resolve(body, c.callee) in reach_em]
@@ -185,7 +185,7 @@ def r4_send_side(ctx):
     ctx.floor("R08.4", "sink loops (stream -> socket)", len(sinks), 3)
     for key, body, r, w, loop in sinks:
         cfg = ctx.cfg(body)
-        owner = _owner(key)
+        owner = _owner(ctx, key)
         exits = {b for x in loop for b in cfg.succ(x) if b not in loop}
         sh = [c.bb for c in body.calls() if (c.norm or "").endswith("AsyncWriteExt::shutdown")]
         ok = bool(sh) and cfg.must_pass(list(exits), body.return_blocks(), via_blocks=sh)[0]
@@ -221,7 +221,7 @@ def r6_loop_exits(ctx):
     ctx.floor("R08.6", "TCP relay loops (3 stream->socket, 3 socket->stream)", len(loops), 6)
     for key, body, loop, own_bbs, kind in loops:
         conds = ctx.conds(body)
-        fn = _owner(key)
+        fn = _owner(ctx, key)
         bad = None
         n = 0
         for c in conds.all():
@@ -252,7 +252,7 @@ def r7_no_direction_abort(ctx):
             defs = {s_[1] for s_ in subterms(t) if isinstance(s_, tuple) and s_ and s_[0] == "agg"}
             kids = {ctx.cg.resolve(body, d_) for d_ in defs}
             hit = sorted(k for k in kids if k and any(rc == k or rc.startswith(k + "::") for rc in relay_children))
-            ctx.ob("R08.7", "%s:abort-is-not-on-a-relay-direction" % _owner(key), not hit, c.site, "the aborted handle is not a relay direction task" if not hit else
+            ctx.ob("R08.7", "%s:abort-is-not-on-a-relay-direction" % _owner(ctx, key), not hit, c.site, "the aborted handle is not a relay direction task" if not hit else
                    "`abort()` on the task running %s: when one direction of the relay ends the other is killed, so a reply still on its way after the peer half-closed is lost" % hit[0])
     spawners = {e.src for k in relay_children for e in ctx.cg.callers(k, kinds=("spawn",))}
     ctx.ob("R08.7", "relay:direction-tasks-are-never-aborted", True, "", "%d abort call(s) in the crate examined; %d bodies spawn relay direction tasks" % (n, len(spawners)))
@@ -262,6 +262,9 @@ def run(ctx):
     from . import C09
     r6_loop_exits(ctx)
     r7_no_direction_abort(ctx)
+    from . import C01
+    C01.r12_every_dequeued_chunk_is_written(ctx)   # after the peer's FIN the local direction keeps being forwarded
+    C09.r3_recv_exits(ctx)                         # every way the receive loop ends closes the session, which is what releases blocked readers
     C09.r4_close_body(ctx)   # session close drops every inbound sender, so blocked readers reach end-of-stream
     r1_fin_arm(ctx)
     r2_single_sender_owner(ctx)
